@@ -123,7 +123,7 @@ def meta(tier):
                 'position (also directives that emit nothing: .fill 0, x); expression-length family (N in 8,16,24,32,64 tokens in every expression position); '
                 'wide-address family (address widths 24/32/40/64 x code at 7 addresses around 2^16, 2^24, 2^32, 2^40, 2^48 x every format, where a '
                 'format may be unable to express the address and the failure arises while the outputs are produced); each '
-                'under the output configurations (no pretty print / each of 4 formats / a window) with the output file pre-seeded with '
+                'under the output configurations (no pretty print / each of 4 formats / a window / --no-binary with a pretty print) with the output file pre-seeded with '
                 'a sentinel (and, for line-level deviations, absent); thorough: every pair of line-level deviations; '
                 'non-trivial = execution that ends in a rejection, or a must-reject deviation; states: n/a',
         'bounds': {'bases': {k: len(v) for k, v in BASES.items()}, 'garble_characters': GARBLE, 'zero_length': ZERO_LEN,
@@ -150,7 +150,7 @@ def judge(spec, outcomes):
         if spec.get('binary', True) and (o.image is None or o.image == sentinel):
             return 'success was reported but no image was written'
         if spec.get('must_reject'):
-            return f'success was reported for a program with {spec["must_reject"]} (image {o.image.hex()[:40]})'
+            return f'success was reported for a program with {spec["must_reject"]} (image {o.image.hex()[:40] if o.image else None})'
     return None
 
 
@@ -164,15 +164,16 @@ def confirm(viol):
 CONFIGS = [
     {'pretty': None}, {'pretty': 'listing'}, {'pretty': 'hex'}, {'pretty': 'intel_hex'}, {'pretty': 'minhex'},
     {'pretty': None, 'start': 2, 'end': 0x30, 'fill': 0xFF},
+    {'pretty': 'hex', 'binary': False},         # --no-binary: only a pretty print is requested
 ]
 
 
-def execute(acc, lines, what, must, clause, cfg, preseed=True, isa=None):
-    files = {'main.asm': '\n'.join(lines) + '\n', 'inc.asm': INCLUDED}
+def execute(acc, lines, what, must, clause, cfg, preseed=True, isa=None, included=None):
+    files = {'main.asm': '\n'.join(lines) + '\n', 'inc.asm': included or INCLUDED}
     case = Case(isa or ISA, files, preseed=preseed, pretty=cfg.get('pretty'), start=cfg.get('start', 0), end=cfg.get('end'),
-                fill=cfg.get('fill', 0))
+                fill=cfg.get('fill', 0), binary=cfg.get('binary', True))
     out = acc.run(case)
-    spec = {'type': 'c14', 'preseed': preseed, 'must_reject': must, 'deviation': what}
+    spec = {'type': 'c14', 'preseed': preseed, 'must_reject': must, 'deviation': what, 'binary': cfg.get('binary', True)}
     msg = judge(spec, [out])
     if msg:
         acc.violation([case], spec, f'{what}: {msg}', [out])
@@ -211,7 +212,7 @@ def shard(acc, tier, idx, n):
             if ctr % n != idx:
                 continue
             kind = what.split(': ', 1)[1]
-            for cfg in (CONFIGS[0], CONFIGS[1]):
+            for cfg in (CONFIGS[0], CONFIGS[1], CONFIGS[6]):
                 execute(acc, new, f'{bname}: {what}', kind, 'must-reject', cfg)
         if not q:
             ll = [d for d in devs if d[0].startswith(('drop line', 'duplicate line', 'insert'))]
@@ -224,6 +225,21 @@ def shard(acc, tier, idx, n):
                 match = [d for d in second if d[0] == w2]
                 if match:
                     execute(acc, match[0][1], f'{bname}: {w1} + {w2}', None, 'invariants', CONFIGS[(ctr // n) % 2])
+    # ---- labels of file scope are unresolvable from the other file of an include pair --------------------------------
+    lines = BASES['files']
+    cross = [
+        ('included file uses a file-scope constant of its includer', ['_mine = 5'] + lines, 'inc_lab: nop\n    .byte _mine\n'),
+        ('included file uses a file-scope label of its includer', ['_mine: nop'] + lines, 'inc_lab: nop\n    .2byte _mine\n'),
+        ('includer uses a file-scope label of the included file', lines + ['    .2byte _theirs'], 'inc_lab: nop\n_theirs: .byte 5\n'),
+        ('includer uses a file-scope constant of the included file', lines + ['    .byte _theirs'], '_theirs = 5\ninc_lab: nop\n    .byte 5\n'),
+        ('included file uses a local label of its includer', ['glob1:', '.mine: nop'] + lines, 'inc_lab: nop\n    .2byte .mine\n'),
+    ]
+    for what, new, inc in cross:
+        for cfg in (CONFIGS[0], CONFIGS[1], CONFIGS[6]):
+            ctr += 1
+            if ctr % n != idx:
+                continue
+            execute(acc, new, f'files: {what}', 'a label that cannot be resolved from where it is used', 'must-reject', cfg, included=inc)
     # ---- output-stage failures: addresses a format may be unable to express (wide address spaces) ------------------
     for asz in (24, 32, 40, 64):
         wide = dict(ISA, general=dict(ISA['general'], address_size=asz))
